@@ -313,6 +313,10 @@ def _fill_work(arg):
 def _coerce(v, fld):
     if isinstance(fld, hf.EnumField) and v is not None:
         return fld.enum()[v.name]
+    if isinstance(v, str):
+        # the solution travels through an INI file, which does not keep white space at the ends of a value (C14 compares
+        # text up to that); what the filler maps is the text as the file holds it
+        return '\n'.join(l.strip() for l in v.strip().split('\n'))
     return v
 
 
